@@ -43,6 +43,9 @@ func distanceMeters(context *api.Context, a b6.Geometry, b b6.Geometry) (float64
 
 // Return the distance in meters between the given path, and the project of the give point onto it.
 func distanceToPointMeters(context *api.Context, path b6.Geometry, point b6.Geometry) (float64, error) {
+	if err := expectPath(path); err != nil {
+		return 0.0, err
+	}
 	polyline := *path.Polyline()
 	projection, vertex := polyline.Project(point.Point())
 	distance := polyline[vertex-1].Distance(projection)
@@ -76,6 +79,9 @@ func centroid(context *api.Context, geometry b6.Geometry) (b6.Geometry, error) {
 
 // Return the point at the given fraction along the given path.
 func interpolate(context *api.Context, path b6.Geometry, fraction float64) (b6.Geometry, error) {
+	if err := expectPath(path); err != nil {
+		return nil, err
+	}
 	polyline := path.Polyline()
 	point, _ := polyline.Interpolate(fraction)
 	return b6.GeometryFromLatLng(s2.LatLngFromPoint(point)), nil
